@@ -127,3 +127,21 @@ func c07Extras(c *Ctx) {
 		c.Undecided("R-SCAN", "x509.FilterByDate", "anchor", "-", "not found")
 	}
 }
+
+func c06Extras(c *Ctx) {
+	w := c.W
+	// every entry point that yields Certificate values decodes each certificate into its own wire object
+	scope := fileScope(w, []string{"z/x509.ParseCertificate", "z/x509.ParseCertificates", "z/x509.ParseTBSCertificate"}, "x509/x509.go")
+	c.FreshObligations(scope, "certificate parsing entry points (metadata depends on this certificate's bytes only)")
+	// sibling entry points reach the same internal parser
+	for _, n := range []string{"z/x509.ParseCertificate", "z/x509.ParseCertificates"} {
+		fn := w.Fn(n)
+		if fn == nil {
+			c.Undecided("R-SIBLING", n, "anchor", "-", "not found")
+			continue
+		}
+		c.Sites++
+		calls := callsIn(fn, "z/x509.parseCertificate")
+		c.Check(len(calls) == 1, "R-SIBLING", short(n), "produces its certificates through parseCertificate", w.Pos(fn.Pos()), fmt.Sprint(len(calls)))
+	}
+}
